@@ -168,6 +168,39 @@ CHECKS["C08"] = dict(
     technique="TLA+ contract + implementation-shaped spec, TLC refinement check, per-edge behaviour replay on the real objects with final-state probe, TLC simulation, TLC trace validation",
     design_ref="DESIGN.md section 4, C08")
 
+CHECKS["C02"] = dict(
+    text="vh drive kvlin records concurrent histories of one kvs.Storage (in-memory store; Redis client(s) over an in-process "
+         "miniredis): 2-4 goroutines on their own OS threads, random mixes of Create/Get/Put/CasByVersion/Delete/GetMany/PutMany, "
+         "unsynchronised read-CAS chains, and all-fire-at-once Create/Create, CAS/CAS, Delete/CAS, Put/CAS races (spin barrier; CAS "
+         "arguments are versions the thread observed). Every call is bracketed by two draws from one atomic sequence counter, so "
+         "logged intervals contain the real ones. KvLinTrace.tla lets TLC place a linearization point per call (per entry for "
+         "GetMany/PutMany) inside its interval and requires KvStore!Apply - the same sequential contract as C03 - to give exactly the "
+         "logged reply there (error class, value, version identity; every successful write installs a version id no other write has). "
+         "A history TLC cannot explain is the violation; the rejection line names the first unexplainable reply. RedisImpl.tla models "
+         "redis.go as SETNX/GET, WATCH/GET/MULTI-SET-EXEC with retry, MSET, SET-loop round-trips for 2-3 clients; TLC checks the "
+         "refinement to KvStore with fixed linearization points plus 'at most/exactly one creator', 'one CAS winner per version', "
+         "'fresh versions', and must reject four re-introduced defects (negative controls). Sampling of schedules, not exhaustive, "
+         "for the code; exhaustive in the bound for the model.",
+    note="Trusted: TLC, KvStore.tla, miniredis as a faithful Redis (WATCH/EXEC), atomic counter order = real-time order. Races with "
+         "nanosecond windows in the in-memory store are hit only probabilistically (no gates). A call that never returns is exit 2.",
+    technique="TLA+ linearizability trace validation by TLC (silent linearization steps, read-ahead replies, high-water-mark acceptance) "
+              "of recorded concurrent histories + TLC refinement check of a round-trip model of the Redis client with negative controls",
+    design_ref="DESIGN.md section 4, C02; section 2.2")
+CHECKS["C09"] = dict(
+    text="LRUConc.tla models GetOrCreate's two critical sections (hit / register in-flight / wait; creation outside the lock; close, "
+         "unregister, insert, evict + callback), Remove and Clear, with LRU!Apply as the effect of every critical section; TLC exhausts it "
+         "for 3 callers x 2 calls (1.6 M states) and proves single flight, creator-inserts-fresh, resident <= capacity, created = resident "
+         "(+) deleted-once, no orphan waiter, and (fairness) every waiter released. The command history of every transition of the 1-call "
+         "configurations is played on a REAL lru.ECache with a gated create callback (the harness decides when a creation completes and "
+         "whether it fails) and a delete callback that records under the cache's own lock; seeded random gated schedules and ungated stress "
+         "(4-8 goroutines) add depth. Every recorded history is validated by TLC against LRUConcTrace.tla: linearizable to the sequential "
+         "contract with the same returned values and evictions, at most one open creation per key, every created value deleted exactly "
+         "once by the final Clear, resident count <= capacity at every return.",
+    note="Trusted: TLC, LRU!Apply (the C08 contract), the harness event order (one mutex), the fact that ecache.go calls the delete callback "
+         "under its lock. Bounded exhaustive on the model; schedules at critical-section granularity plus sampled free scheduling on the code.",
+    technique="TLA+ concurrency spec model-checked by TLC, TLC-generated schedules replayed on the real cache through gated callbacks, TLC linearizability trace validation",
+    design_ref="DESIGN.md section 4, C09")
+
 
 PENDING_REASON = "check not built yet in this round; the TLA+ design for it is in DESIGN.md section 4"
 
